@@ -7,22 +7,32 @@
        a value of CorruptLens.  After a corruption the cursor may leave the field grid; the words found there are
        unknown, so the machine reads ANY word of DesyncTIs / DesyncLens (nondeterminism).
    Invariants = the property on the model.  EmitScn prints one line per terminal state of an uncorrupted run
-   (inputs + predicted slices) and one line per corrupted initial state (inputs + where to corrupt).            *)
-EXTENDS VerbPayload, Json
+   (inputs + predicted slices) and one line per corrupted initial state (inputs + where to corrupt).
 
-CONSTANTS Alpha2, Alpha3, AlphaC, MaxC
+   Nested shapes (VerbShapes.tla): every untruncated argument sequence of length <= 2, and of length 3 over ShapeAlpha3,
+   is additionally handed to the serde encoder through every form of Forms(args) - transparent wrappers, data-less and
+   named values between the arguments, containers, the ASCII wrapper around every kind, the helper traits driven
+   directly, to_payload.  ShapesConform: what the design (Ser) does with a form is allowed by the contract reading
+   (CLeaves): an accepted form decodes to the handed values (optional names present or not), only non-plain forms are
+   refused.  EmitScn prints one line per (sequence, form) with the predicted outcome (refusal and error, or slices). *)
+EXTENDS VerbShapes, Json
+
+CONSTANTS Alpha2, Alpha3, AlphaC, MaxC, ShapeAlpha3
 
 A(k, w, n) == [kind |-> k, w |-> w, n |-> n]
 AlphaFull  == {A("bool", 1, 0)} \cup {A("sint", w, 0) : w \in {1, 2, 4, 8}} \cup {A("uint", w, 0) : w \in {1, 2, 4, 8}}
               \cup {A("floa", w, 0) : w \in {4, 8}}
               \cup {A(k, 0, n) : k \in VarKinds, n \in {0, 1, 3}}
 AlphaSmall == {A("bool", 1, 0), A("sint", 1, 0), A("uint", 4, 0), A("floa", 8, 0), A("strU", 0, 3), A("strA", 0, 0), A("rawd", 0, 1)}
+AlphaShape == AlphaSmall \cup {A("rawd", 0, 0), A("strA", 0, 2), A("sint", 8, 0)}      \* sequences of 3 that are also handed over as nested shapes (thorough)
 AlphaMid   == AlphaSmall \cup {A("sint", 8, 0), A("uint", 2, 0), A("floa", 4, 0), A("strA", 0, 2), A("rawd", 0, 0), A("strU", 0, 1)}
 
 \* type words a corrupted / lost cursor can meet: one per branch of the decoder (and the neighbours of every guard)
+\* (TI_SINT + 5 / TI_UINT + 5: 128 bit integers; SCOD_HEX / SCOD_BIN / SCOD_RSVD: string codings the renderer has no text for)
+SCOD_HEX == 65536      SCOD_BIN == 98304      SCOD_RSVD == 131072
 CorruptTIs == {TI_VARI + TI_UINT + 3, TI_FIXP + TI_FLOA + 3, TI_BOOL, TI_BOOL + 1, TI_BOOL + 2, TI_UINT, TI_UINT + 3,
-               TI_UINT + 5, TI_UINT + 15, TI_SINT + 1, TI_FLOA + 1, TI_FLOA + 2, TI_FLOA + 4, TI_STRG + SCOD_UTF8, TI_RAWD,
-               TI_ARAY + TI_UINT + 3, 0}
+               TI_UINT + 5, TI_UINT + 15, TI_SINT + 1, TI_SINT + 5, TI_FLOA + 1, TI_FLOA + 2, TI_FLOA + 4, TI_STRG + SCOD_UTF8, TI_RAWD,
+               TI_STRG + SCOD_HEX, TI_STRG + SCOD_BIN, TI_STRG + SCOD_RSVD, TI_ARAY + TI_UINT + 3, 0}
 CorruptLens == {0, 1, 2, 4, 65535}
 DesyncTIs  == {TI_VARI + TI_UINT + 3, TI_BOOL, TI_BOOL + 2, TI_UINT + 3, TI_UINT, TI_FLOA + 4, TI_FLOA + 1, TI_STRG, TI_RAWD, 0}
 DesyncLens == {0, 2, 65535}
@@ -77,6 +87,77 @@ CorruptPrefix == (~Intact) => /\ \A j \in 1..Min(Len(st.out), corr.pos - 1) : st
                               /\ (Done => Len(st.out) >= corr.pos - 1)
 Terminates == <>Done
 
+-----------------------------------------------------------------------------
+\* nested shapes: the forms an argument sequence is additionally handed over in (see VerbShapes.tla)
+NameLen == <<1, 2, 5, 8>>          \* the driver's NAMES: "A" "Ok" "Third" "Variant9"
+CharLen == <<1, 2, 3, 4>>          \* the driver's CHARS: 'c' U+00E4 U+20AC U+1F600
+Nd(t, i, n, c) == [t |-> t, i |-> i, n |-> n, c |-> c]
+Lf(i)      == Nd("leaf", i, 0, <<>>)
+D0(t)      == Nd(t, 0, 0, <<>>)                         \* none / unit / unit_struct
+W(t, x)    == Nd(t, 0, 0, <<x>>)                        \* some / newtype / wrapper
+Ch(id)     == Nd("char", id, CharLen[id], <<>>)
+Nm(t, id, xs) == Nd(t, id, NameLen[id], xs)             \* named nodes
+Fields(xs) == [j \in 1..Len(xs) |-> Nm("field", ((j - 1) % 4) + 1, <<xs[j]>>)]
+Cont(kind, xs) == CASE kind = "tuple_variant"  -> Nm("tuple_variant", 3, xs)
+                    [] kind = "struct"         -> Nd("struct", 0, 0, Fields(xs))
+                    [] kind = "struct_variant" -> Nm("struct_variant", 2, Fields(xs))
+                    [] OTHER                   -> Nd(kind, 0, 0, xs)                  \* seq tuple tuple_struct map
+WrapBy(code, x) == CASE code = "some" -> W("some", x)
+                     [] code = "newtype" -> W("newtype", x)
+                     [] code = "sn"  -> W("some", W("newtype", x))
+                     [] code = "nss" -> W("newtype", W("some", W("some", x)))
+                     [] OTHER -> x
+Insert(s, p, x) == SubSeq(s, 1, p) \o <<x>> \o SubSeq(s, p + 1, Len(s))
+\* values that can stand between the arguments
+Between == {D0("none"), D0("unit"), D0("unit_struct"), Nm("unit_variant", 1, <<>>), Nm("unit_variant", 4, <<>>),
+            Ch(1), Ch(2), Ch(3), Ch(4), W("some", D0("none")), W("newtype", D0("unit")), W("some", Ch(2)),
+            W("newtype", Nm("unit_variant", 2, <<>>)), W("wrapper", Ch(1)), W("wrapper", Nm("unit_variant", 3, <<>>)),
+            W("wrapper", D0("none"))}
+ContKinds  == {"seq", "tuple", "tuple_struct", "map", "tuple_variant", "struct", "struct_variant"}
+DirectSeqs == {"d_seq", "d_tuple", "d_tuple_struct", "d_tuple_variant", "d_map"}
+DirectFlds == {"d_struct", "d_struct_variant"}
+Form(via, tops) == [via |-> via, tops |-> tops]
+Forms(a) ==
+  LET n == Len(a)
+      plain == [j \in 1..n |-> Lf(j)]
+      somes == [j \in 1..n |-> W("some", Lf(j))]
+  IN  {Form("args", [j \in 1..n |-> WrapBy(code, Lf(j))]) : code \in {"some", "newtype", "sn", "nss"}}
+      \cup {Form("args", [plain EXCEPT ![p] = WrapBy(code, Lf(p))]) : p \in 1..n, code \in {"some", "newtype"}}
+      \cup {Form("args", Insert(plain, p, x)) : p \in 0..n, x \in Between}
+      \cup {Form("args", <<Cont(k, plain)>>) : k \in ContKinds}
+      \cup {Form("args", [plain EXCEPT ![p] = Cont(k, <<Lf(p)>>)]) : p \in 1..n, k \in ContKinds}
+      \cup {Form("args", <<W("some", Cont("tuple", plain))>>), Form("args", <<W("wrapper", Cont("seq", plain))>>),
+            Form("args", <<W("newtype", Cont("struct", somes))>>)}
+      \cup UNION {{Form("args", [plain EXCEPT ![p] = x]) :
+                 x \in {W("wrapper", Lf(p)), W("wrapper", W("some", Lf(p))), W("wrapper", W("newtype", W("some", Lf(p)))),
+                        W("wrapper", W("wrapper", Lf(p))), W("some", W("wrapper", Lf(p))),
+                        Nm("newtype_variant", 2, <<Lf(p)>>), Nm("newtype_variant", 1, <<W("wrapper", Lf(p))>>)}} : p \in 1..n}
+      \cup {Form(via, t) : via \in DirectSeqs, t \in {plain, somes} \cup {Insert(plain, p, D0("none")) : p \in 0..n}
+                                                               \cup {Insert(plain, p, Ch(3)) : p \in {0, n}}}
+      \cup {Form(via, Fields(t)) : via \in DirectFlds, t \in {plain, somes} \cup {Insert(plain, p, D0("unit")) : p \in 0..n}
+                                                                       \cup {Insert(plain, p, Nm("unit_variant", 4, <<>>)) : p \in {0, n}}}
+      \cup (IF n = 1 THEN {Form("to_payload", <<x>>) : x \in {Lf(1), W("some", Lf(1)), W("newtype", Lf(1)), W("wrapper", Lf(1)),
+                                                                Cont("tuple", plain), Cont("seq", plain), Cont("struct", plain)}}
+             ELSE IF n = 0 THEN {Form("to_payload", <<x>>) : x \in Between \cup {Cont(k, <<>>) : k \in ContKinds}}
+             ELSE {})
+ShapeScope == Intact /\ Done /\ P = EncLen(args) /\ (Len(args) <= 2 \/ \A j \in 1..Len(args) : args[j] \in ShapeAlpha3)
+
+\* the abstract argument a contract leaf descriptor stands for
+DescArg(a, d) == IF d.name \/ d.nd.t = "char" THEN A("strU", 0, d.nd.n + 1)
+                 ELSE IF d.ascii /\ a[d.nd.i].kind = "rawd" THEN A("strA", 0, a[d.nd.i].n) ELSE a[d.nd.i]
+Abs(lv) == [j \in 1..Len(lv) |-> A(lv[j].kind, lv[j].w, lv[j].n)]
+RECURSIVE Keep(_, _, _, _)
+Keep(a, D, k, S) == IF k > Len(D) THEN <<>> ELSE (IF k \in S THEN <<>> ELSE <<DescArg(a, D[k])>>) \o Keep(a, D, k + 1, S)
+JudgedForm(a, D) == \A k \in 1..Len(D) : D[k].ascii => (D[k].solo /\ ~D[k].name /\ D[k].nd.t = "leaf" /\ a[D[k].nd.i].kind = "rawd")
+\* the design refines the contract: accepted => the handed values (optional names kept or dropped) round-trip; refused => not plain
+FormConforms(a, f) ==
+  LET r == SerForm(a, f)  D == FormLeaves(f) IN
+  IF r.ok THEN /\ JudgedForm(a, D)
+               /\ \E S \in SUBSET OptIdx(D) : Abs(r.leaves) = Keep(a, D, 1, S)
+               /\ LET out == Decode(r.leaves, EncLen(r.leaves)) IN Len(out) = Len(r.leaves) /\ IsPrefixOf(out, r.leaves)
+  ELSE ~PlainForm(f)
+ShapesConform == ShapeScope => \A f \in Forms(args) : FormConforms(args, f)
+
 \* scenario emission
 ArgJ(i) == [kind |-> args[i].kind, w |-> args[i].w, n |-> args[i].n, ti |-> TIof(args[i])]
 EmitScn ==
@@ -87,4 +168,13 @@ EmitScn ==
         PrintT(<<"SCN", ToJson([mode |-> "corrupt", args |-> [i \in 1..Len(args) |-> ArgJ(i)], k |-> P, enclen |-> EncLen(args),
                                 cpos |-> corr.pos, cfield |-> corr.field, cval |-> corr.val,
                                 coff |-> OffsetOf(args, corr.pos) + (IF corr.field = "LEN" THEN 4 ELSE 0)])>>)
+  /\ ShapeScope =>
+        \A f \in Forms(args) :
+           LET r == SerForm(args, f) IN
+           PrintT(<<"SCN", ToJson([mode |-> "shape", args |-> [i \in 1..Len(args) |-> ArgJ(i)], via |-> f.via, tops |-> f.tops,
+                                   ok |-> r.ok, err |-> r.err,
+                                   leaves |-> [j \in 1..Len(r.leaves) |-> [kind |-> r.leaves[j].kind, w |-> r.leaves[j].w, n |-> r.leaves[j].n,
+                                                                           ti |-> TIof(r.leaves[j]), src |-> r.leaves[j].src, si |-> r.leaves[j].si]],
+                                   k |-> EncLen(r.leaves), enclen |-> EncLen(r.leaves),
+                                   out |-> Decode(r.leaves, EncLen(r.leaves))])>>)
 =============================================================================
